@@ -84,9 +84,50 @@ def run_thorough(prop, mod):
             elif parts[1].startswith("ok"):
                 rep.ok("SELFTEST", parts[0], parts[1])
     rep.stats["selftest"] = results
+    # behaviour-preserving refactorings: this property's check must stay silent on each of them
+    rep.stats["benign"] = run_benign(rep, prop)
     rep.rule("CFG", "every rule holds in every feature configuration that compiles its subject (16 feature sets x debug/release)")
     rep.rule("SELFTEST", "each seeded property-breaking edit of the corpus makes its rule fire; each benign edit leaves the check silent (skipped when /repo was edited so that the anchor text no longer applies)")
     return rep.finish(captured.get("explanation", ""), not_decided=captured.get("not_decided", ""))
+
+
+def run_benign(rep, prop):
+    import concurrent.futures as cf
+    import glob
+    import shutil
+    import subprocess
+    import tempfile
+    diffs = sorted(glob.glob(os.path.join(check.VERIF, "selftest", "benign", "*.diff")))
+    repo = os.environ.get("FCGI_VERIF_REPO", facts.REPO)
+
+    def one(d):
+        w = tempfile.mkdtemp(prefix="fcgi-bn.")
+        wt = os.path.join(w, "wt")
+        try:
+            # a plain copy of the analysed tree (tracked files only), so this also works when /repo itself was edited
+            os.makedirs(wt)
+            r = subprocess.run("git -C %s ls-files -z | (cd %s && xargs -0 cp --parents -t %s)" % (repo, repo, wt), shell=True, capture_output=True, text=True)
+            r = subprocess.run(["git", "apply", "--unsafe-paths", "--directory", wt, d], cwd=wt, capture_output=True, text=True)
+            if r.returncode != 0:
+                r = subprocess.run(["patch", "-s", "-p1", "-i", d], cwd=wt, capture_output=True, text=True)
+                if r.returncode != 0:
+                    return os.path.basename(d), "skipped (does not apply to this tree)"
+            env = dict(os.environ, FCGI_VERIF_REPO=wt, FCGI_VERIF_EVIDENCE=os.path.join(w, "ev"), VERIF_TIER="quick")
+            r = subprocess.run([os.path.join(check.VERIF, "bin", "fcgi-verif"), "check", prop, "--tier", "quick"], capture_output=True, text=True, env=env)
+            keys = [l.split("key:", 1)[1].strip() for l in r.stdout.splitlines() if l.strip().startswith("key:")]
+            return os.path.basename(d), ("silent" if r.returncode == 0 and not keys else "ALARM %s" % keys[:3])
+        finally:
+            shutil.rmtree(w, ignore_errors=True)
+    out = []
+    with cf.ThreadPoolExecutor(8) as ex:
+        for name, res in ex.map(one, diffs):
+            out.append({"refactoring": name, "result": res})
+            if res.startswith("ALARM"):
+                rep.undecidable("BENIGN", name, "the check fires on a behaviour-preserving refactoring: %s" % res)
+    n_silent = sum(1 for o in out if o["result"] == "silent")
+    rep.rule("BENIGN", "the check stays silent on every behaviour-preserving refactoring of selftest/benign/ that applies to the analysed tree")
+    rep.ok("BENIGN", "corpus", "%d refactorings silent, %d not applicable to this tree" % (n_silent, sum(1 for o in out if o["result"].startswith("skipped"))))
+    return out
 
 
 def run_check(prop, tier):
